@@ -557,6 +557,22 @@ class Project:
                     return list(f.base.keys())
                 if f.attr == "values":
                     return list(f.base.values())
+            if isinstance(f, Ext) and f.name == "dict" and len(node.args) <= 1 and all(k.arg for k in node.keywords):
+                d_ = {}
+                if node.args:
+                    inner = self.ev(m, node.args[0], env)
+                    if isinstance(inner, dict):
+                        d_.update(inner)
+                    elif isinstance(inner, (list, tuple)) and all(isinstance(x, (list, tuple)) and len(x) == 2 for x in inner):
+                        try:
+                            d_.update({x[0]: x[1] for x in inner})
+                        except TypeError:
+                            return UNK
+                    else:
+                        return UNK
+                for k in node.keywords:
+                    d_[k.arg] = self.ev(m, k.value, env)
+                return d_
             if isinstance(f, Ext) and f.name in ("tuple", "list", "sorted", "set", "frozenset") and len(node.args) == 1:
                 inner = self.ev(m, node.args[0], env)
                 if isinstance(inner, (list, tuple)):
@@ -575,6 +591,36 @@ class Project:
                     args.append(self.ev(m, a, env))
             kwargs = {k.arg: self.ev(m, k.value, env) for k in node.keywords if k.arg}
             return Call(f, args, kwargs, node, m.name)
+        if isinstance(node, (ast.ListComp, ast.GeneratorExp, ast.SetComp)) and len(node.generators) == 1 and not node.generators[0].ifs:
+            g = node.generators[0]
+            seq = self.ev(m, g.iter, env)
+            if isinstance(seq, dict):
+                seq = list(seq.keys())
+            if not isinstance(seq, (list, tuple)) or len(seq) > 256:
+                return UNK
+            out_ = []
+            for item in seq:
+                e2 = dict(env)
+                if isinstance(g.target, ast.Name):
+                    e2[g.target.id] = item
+                elif isinstance(g.target, (ast.Tuple, ast.List)) and isinstance(item, (list, tuple)) and len(item) == len(g.target.elts) and all(isinstance(t, ast.Name) for t in g.target.elts):
+                    for t, x in zip(g.target.elts, item):
+                        e2[t.id] = x
+                else:
+                    return UNK
+                out_.append(self.ev(m, node.elt, e2))
+            return out_ if not isinstance(node, ast.GeneratorExp) else tuple(out_)
+        if isinstance(node, ast.Subscript) and not isinstance(node.slice, ast.Slice):
+            base_ = self.ev(m, node.value, env)
+            key_ = self.ev(m, node.slice, env)
+            try:
+                if isinstance(base_, dict) and key_ in base_:
+                    return base_[key_]
+                if isinstance(base_, (list, tuple)) and isinstance(key_, int) and not isinstance(key_, bool) and -len(base_) <= key_ < len(base_):
+                    return base_[key_]
+            except TypeError:
+                return UNK
+            return UNK
         if isinstance(node, ast.JoinedStr):
             return UNK
         return UNK
